@@ -58,6 +58,11 @@ def check_gen(pid, tier):
         v.cov["states"] += sum(r["states"] for r in ares)
         v.cov["transitions"] += sum(r["states"] for r in ares)
     files = sorted(glob.glob(os.path.join(out, "*.ndjson")))
+    if pid in ("C12", "C03"):
+        # the spec -> code direction: call histories chosen by TLC from GenGenerator.tla
+        gfiles, gst = gen_generator_behaviours(binp, pid, tier)
+        files = gfiles if os.environ.get("VERIF_ONLY_SPEC_GENERATED") else files + gfiles
+        v.cov["spec_generated"] = gst
     # thorough: the implementation-shaped model L2 runs in lock-step with L1 on every trace
     lock = tier == "thorough" and pid in ("C01", "C03", "C12", "C13")
     res = run_tv("TraceGen.tla", "TraceGen_lockstep.cfg" if lock else "TraceGen.cfg", files, timeout=6000)
@@ -162,8 +167,10 @@ def spec_generated_traces(binp, pid, tier, module, cfg, family, num, prologue, a
             for b in beh[i::TV_PAR]:
                 for k, e in enumerate(prologue):
                     f.write(json.dumps(dict(e, unit=1) if k == 0 else e) + "\n")
-                for e in b:
+                for k, e in enumerate(b):
                     e = as_event(e)
+                    if k == 0 and not prologue:
+                        e = dict(e, unit=1)
                     f.write(json.dumps(e) + "\n")
                     ncalls += 1
                     kinds.add(e.get("op") or e["ev"])
@@ -191,6 +198,27 @@ def gen_obj_behaviours(binp, pid, tier):
         raise ToolError("GenObj.tla Ops differs from the harness's OPS table (%d vs %d entries)" % (len(spec_ops), len(impl_ops)))
     return spec_generated_traces(binp, pid, tier, "GenObj.tla", "GenObj.cfg", "obj", 300 if tier == "quick" else 6000,
                                  [{"ev": "hnew"}], lambda e: dict(e, ev="op"))
+
+
+def gen_generator_behaviours(binp, pid, tier):
+    """C12 / C03: the generator's call protocol (GenGenerator.tla).  Chunk descriptors are
+    materialised here with trigger words from the corpus: input shaping only, what the bytes do is
+    recomputed by the specification when the recorded trace is validated."""
+    import random
+    words = json.load(open(os.path.join(VERIF, "corpus", "trigger_words.json")))
+    rnd = random.Random(seed())
+
+    def materialise(e):
+        if e.get("ev") != "upd":
+            return e
+        kind, lv, cnt = e["chunk"]
+        if kind == "zeros":
+            d = [0] * cnt
+        else:
+            pool = words["levels"][lv] if kind == "word" else words[kind]
+            d = [b for _ in range(cnt) for b in rnd.choice(pool)]
+        return {"ev": "upd", "g": e["g"], "f": e["f"], "d": d}
+    return spec_generated_traces(binp, pid, tier, "GenGenerator.tla", "GenGenerator.cfg", "gen", 250 if tier == "quick" else 5000, [], materialise)
 
 
 def gen_target_behaviours(binp, pid, tier):
